@@ -30,7 +30,7 @@ for f in sys.argv[1:]:
         elif "PATCH" in line or "error" in line or "tooling" in line:
             cur["extra"] += " " + line.strip()[:60]
     for r in rows:
-        benign = r["id"].endswith("-3") and ("r3" in r["id"] or "r4" in r["id"])
+        benign = r["id"].endswith("-3") and any(t in r["id"] for t in ("r3", "r4", "r5"))
         if r["exit"] == "?": verdict = "(running)"
         elif benign: verdict = "quiet" if r["exit"] == "0" else ("ALARM(no-failing-input)" if r["nofail"] and r["viol"] == 1 else "ALARM(concrete)")
         else: verdict = "CAUGHT" if r["exit"] == "1" else "ESCAPED"
